@@ -99,6 +99,11 @@ class Bash(linux_shell.LinuxShell):
             self.ch.sendline(f"stty rows {termsize.lines}")
             self.ch.read_until_prompt()
 
+            # Make the tty echo control characters verbatim instead of in caret
+            # notation (^A): read-back counts one echoed byte per byte sent.
+            self.ch.sendline("stty -echoctl")
+            self.ch.read_until_prompt()
+
             # Do a sanity check to assert that shell interaction is working
             # exactly as expected
             util.shell_sanity_check(self)
